@@ -1,6 +1,6 @@
 (* C13 — once the session is closed and no close() is in progress, the transport is closed.
-   Invariant over all reachable states; the server's cancelled `await self._close_wait` is the one escape
-   (ghost flag cw_leak). *)
+   Invariant over all reachable states, both sides (since fix 6837d66 the server's cancelled
+   `await self._close_wait` closes the transport too; the ghost flag cw_leak is never set). *)
 From Coq Require Import List NArith Bool Arith Lia.
 Import ListNotations.
 From AV Require Import Generated.WsSessionGen Model.WsSession.
@@ -34,7 +34,7 @@ Definition frame_tr (t : nat) (s s' : state) : Prop :=
   (In RConnLost (ready s') -> In RConnLost (ready s) \/ tr_closing s' = true) /\
   (closed s = true -> closed s' = true) /\
   (c_side c = Server -> close_wait s' = close_wait s \/ closed s' = true) /\
-  (c_side c = Client -> cw_leak s' = cw_leak s).
+  cw_leak s' = cw_leak s.
 
 Lemma frame_refl t s : frame_tr t s s.
 Proof. unfold frame_tr. repeat split; auto. Qed.
@@ -47,7 +47,7 @@ Proof.
   - congruence.
   - intros H. destruct (B5 H) as [H'|H']; [|auto]. destruct (A5 H') as [H''|H'']; auto.
   - intros Hs. destruct (B7 Hs) as [B7'|B7']; [|auto]. destruct (A7 Hs) as [A7'|A7']; [left; congruence|right; auto].
-  - intros Hs. rewrite B8, A8; auto.
+  - rewrite B8, A8. reflexivity.
 Qed.
 
 Ltac fr_simple :=
@@ -124,7 +124,7 @@ Record Inv_tr (s : state) : Prop := {
   inv_queued : In RConnLost (ready s) -> tr_closing s = true;
   inv_cw : c_side c = Server -> closed s = false -> close_wait s = None;
   inv_closed : closed s = true -> good s;
-  inv_leak : c_side c = Client -> cw_leak s = false
+  inv_leak : cw_leak s = false
 }.
 
 Lemma good_at_good t s : good_at t s -> good s.
@@ -136,7 +136,7 @@ Lemma inv_step t s s' :
   (closed s' = true -> closed s = false \/ closer (pc_of s t) = true -> good_at t s') ->
   Inv_tr s'.
 Proof.
-  intros [I1 I2 I3 I4 I5] (F1 & F2 & F3 & F4 & F5 & F6 & F7 & F8) G. constructor; [| | | |intros Hs; rewrite F8; auto].
+  intros [I1 I2 I3 I4 I5] (F1 & F2 & F3 & F4 & F5 & F6 & F7 & F8) G. constructor; [| | | |rewrite F8; auto].
   - rewrite F4. auto.
   - intros H. destruct (F5 H); auto.
   - intros Hs Hc. destruct (F7 Hs) as [F7'|F7']; [|congruence]. rewrite F7'. apply I3; auto.
@@ -208,7 +208,10 @@ Lemma close_read_resume_spec s t k d :
   lost_ok s -> frame_tr t s (close_read_resume c s t k d) /\ good_at t (close_read_resume c s t k d).
 Proof.
   intros L. unfold close_read_resume. destruct (q_buf s) eqn:E.
-  - split; [apply fr_close_exc|left; apply close_exc_closes; exact L].
+  - destruct (c_side c); [split; [apply fr_close_exc|left; apply close_exc_closes; exact L]|].
+    destruct (_ && _); [|split; [apply fr_close_exc|left; apply close_exc_closes; exact L]].
+    split; [eapply frame_trans; [apply fr_close_transport|apply fr_close_ret]|].
+    left. rewrite trc_close_ret. apply close_transport_closes. exact L.
   - rewrite <- E. apply close_read_loop_spec. exact L.
 Qed.
 
@@ -338,16 +341,21 @@ Proof.
       destruct (_ && _).
       * eapply tr_spec_pre; [exact F|exact E|]. apply close_entry_tr_spec; [eapply (lost_ok_frame t); [exact L|exact F]|eapply (cwB_frame t); [exact B|exact F]].
       * apply tr_spec_same; [eapply frame_trans; [exact F|apply fr_finish]|exact E].
-    + apply tr_spec_same; [|destruct (c_side c); reflexivity].
+    + apply tr_spec_same; [|destruct (c_side c); [destruct (closed s) eqn:E; cbn; auto|reflexivity]].
       eapply frame_trans; [|apply fr_finish]. destruct (c_side c).
-      * eapply frame_trans; [apply fr_mark_closing|fr_simple].
+      * destruct (closed s); [apply frame_refl|]. eapply frame_trans; [apply fr_mark_closing|fr_simple].
       * apply fr_mark_closing.
     + apply tr_spec_same; [apply fr_finish|reflexivity].
     + apply tr_spec_same; [apply fr_finish|reflexivity].
-  - eapply tr_spec_pre with (s1 := set_close_code s (Some code)); [fr_simple|reflexivity|].
-    apply close_entry_tr_spec; [exact L|exact B].
-  - eapply tr_spec_pre with (s1 := set_close_code s (Some ws_close_ok)); [fr_simple|reflexivity|].
-    apply close_entry_tr_spec; [exact L|exact B].
+  - match goal with |- tr_spec t s (close_entry c ?X t _ _) =>
+      eapply (tr_spec_pre t s X);
+        [destruct (c_side c); [destruct (closed s)|]; try apply frame_refl; fr_simple
+        |destruct (c_side c); [destruct (closed s) eqn:E; cbn; auto|reflexivity]|] end.
+    apply close_entry_tr_spec; (destruct (c_side c); [destruct (closed s)|]); assumption.
+  - match goal with |- tr_spec t s (close_entry c ?X t _ _) =>
+      eapply (tr_spec_pre t s X);
+        [destruct (closed s); try apply frame_refl; fr_simple|destruct (closed s) eqn:E; cbn; auto|] end.
+    apply close_entry_tr_spec; destruct (closed s); assumption.
   - apply tr_spec_same; [|destruct (c_side c); reflexivity].
     eapply frame_trans; [|apply fr_finish]. destruct (c_side c); [apply frame_refl|fr_simple].
   - apply tr_spec_same; [|destruct (c_side c); reflexivity].
@@ -457,7 +465,8 @@ Proof.
   - (* PCloseCW *)
     destruct (t_fut _); [|apply wake_ok_refl]. destruct (was_cancelled _).
     + destruct (c_side c) eqn:Es.
-      * apply wake_ok_good; [eapply frame_trans; [|apply fr_finish]; fr_simple|]. right. left. reflexivity.
+      * apply wake_ok_good; [eapply frame_trans; [apply fr_abnormal|apply fr_finish]|].
+        left. rewrite trc_finish. apply abnormal_closes. exact L.
       * apply wake_ok_spec; [unfold pc_of; rewrite Epc; cbn; rewrite Es; reflexivity|].
         apply tr_spec_same; [apply fr_finish|reflexivity].
     + destruct (c_side c) eqn:Es.
@@ -665,24 +674,15 @@ Proof. induction 1; [apply init_inv|eapply step_inv; eauto]. Qed.
 
 End Tr.
 
-(* the session is closed, no task is inside close(), the close() call was not cancelled while it waited for the
-   blocked receive() to wake (server only): the transport is closed *)
+(* the session is closed and no task is inside close(): the transport is closed (both sides) *)
+Theorem no_leak c s : reach c s -> cw_leak s = false.
+Proof. intros R. destruct (reach_inv_tr c s R) as [_ _ _ _ I5]. exact I5. Qed.
+
 Theorem closed_implies_transport_closed c s :
-  reach c s -> closed s = true -> cw_leak s = false ->
+  reach c s -> closed s = true ->
   (forall t, closer c (t_pc (tasks s t)) = false) ->
   tr_closing s = true.
 Proof.
-  intros R Hc Hl Hn. destruct (reach_inv_tr c s R) as [_ _ _ I4 _].
+  intros R Hc Hn. destruct (reach_inv_tr c s R) as [_ _ _ I4 I5].
   destruct (I4 Hc) as [H|[H|[x H]]]; [exact H|congruence|]. unfold pc_of in H. rewrite Hn in H. discriminate.
 Qed.
-
-(* the flag is a server-only escape *)
-
-(* the escape exists on the server only *)
-Theorem client_no_leak c s : c_side c = Client -> reach c s -> cw_leak s = false.
-Proof. intros Hs R. destruct (reach_inv_tr c s R) as [_ _ _ _ I5]. auto. Qed.
-
-Theorem client_closed_implies_transport_closed c s :
-  c_side c = Client -> reach c s -> closed s = true ->
-  (forall t, closer c (t_pc (tasks s t)) = false) -> tr_closing s = true.
-Proof. intros Hs R Hc Hn. apply (closed_implies_transport_closed c s R Hc (client_no_leak c s Hs R) Hn). Qed.
